@@ -1,4 +1,5 @@
 import DicomModel.Lemmas.NormCanon
+import DicomModel.Lemmas.ValidNorm
 /-
 C04 (second module) — the bytes written for ANY well-formed data set (any depth, default strategy) are
 exactly the reference PS3.5 encoding (`Ref.encElems`, Model/RefEncode.lean: a structural recursion written
@@ -6,6 +7,7 @@ from PS3.5 §7.1/§7.5/§A.4, independent of the writer model) of the data set's
 field even and padded per VR, every header length = the number of value bytes that follow, every sequence
 and item with undefined length closed by its own delimiter, fragments of even length.
 -/
+set_option linter.unusedSimpArgs false
 namespace Dicom.C04
 open Dicom.Norm Dicom.Ref
 
@@ -26,5 +28,69 @@ theorem written_length_even (ts : Syntax) (dict : Tag → Option VR) (t : Elems)
 theorem reference_value_is_padded (be : Bool) (vr : VR) (v : PValue) (hv : ValidFor be vr v) :
     Ref.value be (normValue be vr v) = paddedValue be vr v ∧ (paddedValue be vr v).length % 2 = 0 :=
   ⟨refValue_norm be vr v hv, paddedValue_even be vr v⟩
+
+/-! ### the property's central clause: the output is accepted by the independent checker -/
+
+open Dicom.ValidRef in
+/-- **`encode_valid`, default strategy.** For every well-formed data set of any nesting depth, in each of the
+three uncompressed syntaxes, the bytes written by the data set writer are accepted by the independent
+PS3.5 checker `Valid.validPS35` (every header well-formed with the right length form, every defined length
+even and exact, every sequence and item closed by its own delimiter, fragments even, visible padding rule).
+`PadVisibleElems`: the content of a text value does not end in the other class's padding byte (a text
+value in NUL, a UI in a space) — otherwise no checker can tell content from wrong padding.
+Implicit VR: the checker's sequence oracle is the dictionary's (`dictSeq dict`). -/
+theorem encode_valid (ts : Syntax) (dict : Tag → Option VR) (t : Elems)
+    (hwf : WfElems ts dict t) (hpad : PadVisibleElems ts t) :
+    ∃ bs, writeDataset ts .setUndefined t = .ok bs ∧
+      Valid.validPS35 (cfg ts (dictSeq dict)) bs = true :=
+  ⟨_, write_eq_reference ts dict t hwf,
+    valid_ref ts dict _ _ (canon_norm_elems ts dict t hwf).1 (side_norm_elems ts dict t hwf hpad)⟩
+
+open Dicom.ValidRef in
+/-- **`encode_valid`, NoChange strategy** under consistent recorded lengths (`LenOkElems`), defined and
+undefined lengths mixed at any depth: defined-length items and sequences end exactly where their length says. -/
+theorem encode_valid_nochange (ts : Syntax) (dict : Tag → Option VR) (t : Elems)
+    (hwf : WfElems ts dict t) (hlen : LenOkElems ts dict t) (hpad : PadVisibleElems ts t) :
+    ∃ bs, writeDataset ts .noChange t = .ok bs ∧
+      Valid.validPS35 (cfg ts (dictSeq dict)) bs = true := by
+  have hc := canon_keep_elems ts dict t hwf hlen
+  refine ⟨encElems ts (keepElems ts t), ?_, valid_ref ts dict _ _ hc (side_keep_elems ts dict t hwf hlen hpad)⟩
+  rw [← write_keep ts dict .noChange t hwf]
+  exact writeDataset_ref ts dict .noChange _ hc (Or.inl rfl)
+
+open Dicom.ValidRef in
+/-- the checker accepts the reference PS3.5 encoding of every canonical tree (the lemma behind both) -/
+theorem reference_encoding_valid (ts : Syntax) (dict : Tag → Option VR) (isSeq : Nat → Nat → Bool) (t : Elems)
+    (hc : canonElems ts dict t = true) (hs : SideElems ts isSeq t) :
+    Valid.validPS35 (cfg ts isSeq) (encElems ts t) = true :=
+  valid_ref ts dict isSeq t hc hs
+
+/-- non-vacuity of `encode_valid`: a nested tree with padded text (odd PN, odd UI), numbers, an empty item and a
+pixel sequence satisfies both hypotheses in Explicit VR LE; its output is accepted (also by direct kernel
+evaluation of the checker on the model writer's bytes) -/
+def validSample : Elems :=
+  .cons (.prim ⟨0x0008, 0x0018⟩ .UI 5 (.strs [[49, 46, 50, 46, 51]]))
+  (.cons (.seq ⟨0x0008, 0x1140⟩ undefinedLen
+      (.cons undefinedLen (.cons (.prim ⟨0x0010, 0x0010⟩ .PN 3 (.str [65, 94, 66])) .nil)
+      (.cons undefinedLen .nil .nil)))
+  (.cons (.prim ⟨0x0028, 0x0010⟩ .US 2 (.u16 [512]))
+  (.cons (.pix [0] [[1, 2, 3]]) .nil)))
+
+open Dicom.ValidRef in
+theorem valid_sample_hypotheses :
+    WfElems .explicitLE (fun _ => none) validSample ∧ PadVisibleElems .explicitLE validSample := by
+  constructor
+  · simp [WfElems, WfElem, WfItems, validSample, ValidFor, FitsHeader, DsIsOk, ValueAscii, Ascii, NumericOk,
+      paddedValue, padTo, textPad, binPad, encodePrimitive, joinBackslash, Ref.tagOk, Ref.sortedElems,
+      Ref.sortedFrom, Ref.tagLt, Ref.tagOf, Tag.pixelData, undefinedLen, strsVrs, strVrs, C03.ps35,
+      Syntax.explicit, Syntax.bigEndian, enc16, le16]
+  · simp [PadVisibleElems, PadVisible, PadVisibleItems, validSample, paddedValue, padTo, textPad, binPad,
+      encodePrimitive, joinBackslash, Valid.trailOk, Valid.textVrs, Syntax.explicit, Syntax.bigEndian, enc16, le16]
+
+open Dicom.ValidRef in
+theorem valid_sample_checked :
+    ∃ bs, writeDataset .explicitLE .setUndefined validSample = .ok bs ∧
+      Valid.validPS35 (cfg .explicitLE (dictSeq fun _ => none)) bs = true :=
+  encode_valid .explicitLE (fun _ => none) validSample valid_sample_hypotheses.1 valid_sample_hypotheses.2
 
 end Dicom.C04
